@@ -37,7 +37,16 @@ BUDGET = {"quick": {"shards": 8, "examples": 450, "wall": 100},
 
 
 def strategy(tier):
-    return frames.frame_and_options(thorough=(tier == "thorough"))
+    from hypothesis import strategies as st
+
+    @st.composite
+    def s(draw):
+        case = draw(frames.frame_and_options(thorough=(tier == "thorough")))
+        if case["frame"]["index"] is None and case["opts"]["write_index"] is not True and draw(st.integers(0, 5)) == 0:
+            # the automatic index of a frame that was sliced: a RangeIndex that does not start at 0 / has a step
+            case["frame"]["range"] = [draw(st.sampled_from([0, 1, 10, -3])), draw(st.sampled_from([1, 2, 3, -1, 7]))]
+        return case
+    return s()
 
 
 def _path(d, opts):
@@ -152,8 +161,11 @@ def compare_frame(fr, opts, out):
             return ("index_value|range", "range index written explicitly came back as %r" % (got[:10],))
     else:
         got = list(out.index)
-        if got != list(range(n)):
-            return ("index_regen", "expected regenerated RangeIndex, got %r" % (got[:10],))
+        want = list(range(n))
+        if fr.get("range") and wi is None:
+            want = [fr["range"][0] + i * fr["range"][1] for i in range(n)]
+        if got != want:
+            return ("index_regen", "expected regenerated RangeIndex %r, got %r" % (want[:10], got[:10]))
     return None
 
 
